@@ -1,131 +1,254 @@
 (* C11: a rejected standard adds nothing (_vnacal_new_add_common in the order found in the C text), a
    refused property set changes nothing (vnaproperty_vset in the order found in the C text), and the
    model variants with the other order (D17, D54), in which the statements fail. *)
-Require Import List ZArith Bool Lia.
+Require Import List ZArith QArith Bool Lia.
 Import ListNotations.
 Require Import LV.Err.ErrBase LV.Gen.ErrnoGen LV.Err.OrderModel LV.Err.OrderProofs LV.Err.RefutedModel.
 Open Scope Z_scope.
 
 (* ---------------------------------------------------------------- D17 *)
-Section AddCommonProofs.
-  Variable valid : Z -> bool.
-  Variable unknown : Z -> bool.
+(* s' holds every registration of s and has the same calibration range *)
+Definition extends (s s' : newsum) : Prop :=
+  (forall h, known s h = true -> known s' h = true) /\ n_calrange s' = n_calrange s.
 
-  Lemma known_app : forall s h x u m, known s h = true -> known (mknew (n_registered s ++ [x]) u m) h = true.
-  Proof.
-    intros s h x u m H. unfold known in *. simpl. rewrite existsb_app, H. reflexivity.
-  Qed.
+Lemma extends_refl : forall s, extends s s.
+Proof. intro s. split; auto. Qed.
 
-  Lemma check_monotone : forall s h s' h', get_parameter valid unknown s h = Some s' ->
-    check_parameter valid s h' = true -> check_parameter valid s' h' = true.
-  Proof.
-    intros s h s' h' G C. unfold get_parameter in G.
-    destruct ((0 <=? h) && known s h); [inversion G; subst; exact C|].
-    destruct (negb (valid h)); [discriminate|]. inversion G; subst. clear G.
-    unfold check_parameter in *. apply orb_true_iff in C. apply orb_true_iff. destruct C as [C|C]; [left | right; exact C].
-    apply andb_true_iff in C. destruct C as [A B]. apply andb_true_iff. split; [exact A|].
-    apply known_app. exact B.
-  Qed.
+Lemma extends_trans : forall a b c, extends a b -> extends b c -> extends a c.
+Proof. intros a b c [K1 R1] [K2 R2]. split; [auto | congruence]. Qed.
 
-  (* once every cell has passed the validation the registration loop cannot refuse *)
-  Lemma register_after_check_l : forall cells s,
-    forallb (check_parameter valid s) cells = true -> snd (register_cells valid unknown s cells) = true.
-  Proof.
-    induction cells as [|h r IH]; intros s H; simpl in *; [reflexivity|].
-    apply andb_true_iff in H. destruct H as [Hh Hr].
-    destruct (get_parameter valid unknown s h) as [s'|] eqn:G.
-    - apply IH. apply forallb_forall. intros x Hx.
-      apply (check_monotone s h s' x G). rewrite forallb_forall in Hr. apply Hr. exact Hx.
-    - exfalso. unfold get_parameter in G. unfold check_parameter in Hh.
-      destruct ((0 <=? h) && known s h); [discriminate|]. simpl in Hh. rewrite Hh in G. simpl in G. discriminate.
-  Qed.
+Lemma extends_register : forall s h u c, extends s (register s h u c).
+Proof.
+  intros s h u c. split; [|reflexivity]. intros x H. unfold known, register in *. simpl.
+  rewrite existsb_app, H. reflexivity.
+Qed.
 
-  (* repaired order: whatever the parameter table and the s-matrix, a refused standard leaves the
-     vnacal_new_t summary (registered parameters, unknown count, measurement count) as it was *)
-  Lemma rejected_standard_adds_nothing_l : forall s cells s' v r,
-    add_standard_validate_first valid unknown s cells = (s', Refuse v r) -> s' = s.
-  Proof.
-    intros s cells s' v r. unfold add_standard_validate_first.
-    destruct (forallb (check_parameter valid s) cells) eqn:C.
-    - pose proof (register_after_check_l cells s C) as R.
-      destruct (register_cells valid unknown s cells) as [s1 b]. simpl in R. subst b. discriminate.
-    - intro H. inversion H. reflexivity.
-  Qed.
+Lemma node_ok_ext : forall s s' c, extends s s' -> node_ok s' c = node_ok s c.
+Proof. intros s s' c [_ R]. unfold node_ok. rewrite R. reflexivity. Qed.
 
-  (* and a standard is refused by the repaired order exactly when the old order refused it *)
-  Lemma add_standard_same_verdict_l : forall s cells,
-    is_pass (snd (add_standard_validate_first valid unknown s cells)) = is_pass (snd (add_standard_register_first valid unknown s cells)) /\
-    (is_pass (snd (add_standard_validate_first valid unknown s cells)) = true ->
-     add_standard_validate_first valid unknown s cells = add_standard_register_first valid unknown s cells).
-  Proof.
-    intros s cells. unfold add_standard_validate_first, add_standard_register_first.
-    destruct (forallb (check_parameter valid s) cells) eqn:C.
-    - destruct (register_cells valid unknown s cells) as [s1 b]; split; reflexivity || (intros; reflexivity).
-    - assert (R : snd (register_cells valid unknown s cells) = false).
-      { clear - C. revert s C. induction cells as [|h r IH]; intros s C; simpl in *; [discriminate|].
-        apply andb_false_iff in C.
-        destruct (get_parameter valid unknown s h) as [s'|] eqn:G; [|reflexivity].
-        destruct C as [C|C].
-        - exfalso. unfold get_parameter in G. unfold check_parameter in C.
-          destruct ((0 <=? h) && known s h); [discriminate|]. simpl in C. rewrite C in G. discriminate.
-        - apply IH. destruct (forallb (check_parameter valid s') r) eqn:F; [|reflexivity].
-          exfalso. (* a cell refused against s is refused against the larger s' unless it was registered
-                      meanwhile, which needs it to be valid: then it was not refused against s *)
-          assert (M : forall x, check_parameter valid s' x = true -> check_parameter valid s x = true).
-          { intros x Hx. unfold get_parameter in G.
-            destruct ((0 <=? h) && known s h); [inversion G; subst; exact Hx|].
-            destruct (negb (valid h)) eqn:V; [discriminate|]. inversion G; subst. clear G.
-            unfold check_parameter in *. apply orb_true_iff in Hx. apply orb_true_iff.
-            destruct Hx as [Hx|Hx]; [|right; exact Hx].
-            apply andb_true_iff in Hx. destruct Hx as [A B]. unfold known in B. simpl in B.
-            rewrite existsb_app in B. apply orb_true_iff in B. destruct B as [B|B].
-            - left. apply andb_true_iff. split; assumption.
-            - right. simpl in B. rewrite orb_false_r in B. apply Z.eqb_eq in B. subst x.
-              apply negb_false_iff in V. exact V. }
-          assert (forallb (check_parameter valid s) r = true).
-          { apply forallb_forall. intros x Hx. apply M. rewrite forallb_forall in F. apply F. exact Hx. }
-          congruence. }
-      destruct (register_cells valid unknown s cells) as [s1 b]. simpl in R. subst b. split; [reflexivity | discriminate].
-  Qed.
+Lemma known_ext : forall s s' h, extends s s' -> (0 <=? h) && known s h = true -> (0 <=? h) && known s' h = true.
+Proof.
+  intros s s' h [K _] H. apply andb_true_iff in H. destruct H as [A B]. rewrite A, (K h B). reflexivity.
+Qed.
 
-  (* the order of the working tree (tied): when the translator finds the validation pass in front of
-     the registration loop, a refused standard leaves the summary as it was - and a standard whose
-     cells all passed the validation is accepted *)
-  Lemma rejected_standard_current_l : forall s cells s' v r,
-    gen_add_common_prevalidates = true ->
-    add_standard_current valid unknown s cells = (s', Refuse v r) -> s' = s.
-  Proof.
-    intros s cells s' v r G. unfold add_standard_current. rewrite G. apply rejected_standard_adds_nothing_l.
-  Qed.
+(* the validation of a chain against a larger table: still passes *)
+Lemma check_mono : forall rc s s' c, extends s s' -> check_chain_with rc s c = true -> check_chain_with rc s' c = true.
+Proof.
+  intros rc s s' c E. induction c as [h|h live unk a b|h live sg o IH]; simpl; intro H.
+  - destruct ((0 <=? h) && known s h) eqn:K; [|discriminate]. rewrite (known_ext s s' h E K). reflexivity.
+  - destruct ((0 <=? h) && known s h) eqn:K; [rewrite (known_ext s s' h E K); reflexivity|].
+    destruct ((0 <=? h) && known s' h); [reflexivity|]. rewrite (node_ok_ext s s' _ E). exact H.
+  - destruct ((0 <=? h) && known s h) eqn:K; [rewrite (known_ext s s' h E K); reflexivity|].
+    destruct ((0 <=? h) && known s' h); [reflexivity|]. rewrite (node_ok_ext s s' _ E).
+    apply andb_true_iff in H. destruct H as [N C]. rewrite N. simpl. destruct rc; [apply IH; exact C | reflexivity].
+Qed.
 
-  Lemma validated_standard_accepted_l : forall s cells,
-    gen_add_common_prevalidates = true -> forallb (check_parameter valid s) cells = true ->
-    snd (add_standard_current valid unknown s cells) = Pass.
-  Proof.
-    intros s cells G C. unfold add_standard_current, add_standard_validate_first. rewrite G, C.
-    pose proof (register_after_check_l cells s C) as R.
-    destruct (register_cells valid unknown s cells) as [s1 b]. simpl in R. subst b. reflexivity.
-  Qed.
-End AddCommonProofs.
+(* a chain that passed the validation WITH the walk down to the correlate is registered without a
+   refusal - whether or not the registration itself walks down *)
+Lemma check_then_get : forall rg c s, check_chain_with true s c = true ->
+  exists s', get_chain_with rg s c = Some s' /\ extends s s'.
+Proof.
+  intros rg c. induction c as [h|h live unk a b|h live sg o IH]; simpl; intros s H.
+  - destruct ((0 <=? h) && known s h); [|discriminate]. exists s. split; [reflexivity | apply extends_refl].
+  - destruct ((0 <=? h) && known s h); [exists s; split; [reflexivity | apply extends_refl]|].
+    rewrite H. eexists. split; [reflexivity | apply extends_register].
+  - destruct ((0 <=? h) && known s h); [exists s; split; [reflexivity | apply extends_refl]|].
+    apply andb_true_iff in H. destruct H as [N C]. rewrite N. destruct rg.
+    + destruct (IH s C) as [s1 [G E]]. rewrite G. eexists. split; [reflexivity|].
+      eapply extends_trans; [exact E | apply extends_register].
+    + eexists. split; [reflexivity | apply extends_register].
+Qed.
+
+(* once every cell has passed the (recursive) validation the registration loop cannot refuse *)
+Lemma register_after_check_with : forall rg cells s,
+  forallb (check_chain_with true s) cells = true -> snd (register_cells_with rg s cells) = true.
+Proof.
+  intros rg. induction cells as [|c r IH]; intros s H; simpl in *; [reflexivity|].
+  apply andb_true_iff in H. destruct H as [Hc Hr].
+  destruct (check_then_get rg c s Hc) as [s1 [G E]]. rewrite G. apply IH.
+  apply forallb_forall. intros x Hx. apply (check_mono true s s1 x E).
+  rewrite forallb_forall in Hr. apply Hr. exact Hx.
+Qed.
+
+Lemma register_after_check_l : gen_check_parameter_recurses = true -> forall cells s,
+  forallb (check_parameter s) cells = true -> snd (register_cells s cells) = true.
+Proof.
+  intros G cells s. unfold check_parameter, register_cells. rewrite G. apply register_after_check_with.
+Qed.
+
+(* repaired order with the walk down to the correlate in the validation: whatever the parameter chains
+   of the S matrix and the table, a refused standard leaves the vnacal_new_t summary (registered
+   parameters, unknown and correlated counts, measurement count) as it was *)
+Lemma rejected_standard_adds_nothing_with : forall rg s cells s' v r,
+  add_standard_validate_first_with true rg s cells = (s', Refuse v r) -> s' = s.
+Proof.
+  intros rg s cells s' v r. unfold add_standard_validate_first_with.
+  destruct (forallb (check_chain_with true s) cells) eqn:C.
+  - pose proof (register_after_check_with rg cells s C) as R.
+    destruct (register_cells_with rg s cells) as [s1 b]. simpl in R. subst b. discriminate.
+  - intro H. inversion H. reflexivity.
+Qed.
+
+(* the order of the working tree (tied): when the translator finds the validation pass in front of the
+   registration loop AND the walk down to the correlate inside the validation, a refused standard leaves
+   the summary as it was - and a standard whose cells all passed the validation is accepted *)
+Lemma rejected_standard_current_l : forall s cells s' v r,
+  gen_add_common_prevalidates = true -> gen_check_parameter_recurses = true ->
+  add_standard_current s cells = (s', Refuse v r) -> s' = s.
+Proof.
+  intros s cells s' v r G R. unfold add_standard_current, add_standard_validate_first. rewrite G, R.
+  apply rejected_standard_adds_nothing_with.
+Qed.
+
+Lemma validated_standard_accepted_l : forall s cells,
+  gen_add_common_prevalidates = true -> gen_check_parameter_recurses = true ->
+  forallb (check_parameter s) cells = true ->
+  snd (add_standard_current s cells) = Pass.
+Proof.
+  intros s cells G R C. unfold add_standard_current, add_standard_validate_first, add_standard_validate_first_with.
+  unfold check_parameter in C. rewrite G. rewrite R in *. rewrite C.
+  pose proof (register_after_check_with gen_get_parameter_recurses cells s C) as P.
+  destruct (register_cells_with gen_get_parameter_recurses s cells) as [s1 b]. simpl in P. subst b. reflexivity.
+Qed.
+
+(* ---- the two hand-written orders on S matrices WITHOUT correlated parameters whose validity is a function of
+   the handle (ok): they refuse the same standards and do the same on the accepted ones.  (With chains the two
+   orders can differ on inconsistent data - the same handle with two different chains -, which no vnacal_t has.) *)
+Definition flat_ok (ok : Z -> bool) (s : newsum) (c : pchain) : Prop :=
+  match c with ChCorr _ _ _ _ => False | _ => node_ok s c = ok (chain_handle c) end.
+
+Lemma flat_ok_ext : forall ok s s' c, extends s s' -> flat_ok ok s c -> flat_ok ok s' c.
+Proof.
+  intros ok s s' c E H. destruct c; simpl in *; try exact H; rewrite (node_ok_ext s s' _ E); exact H.
+Qed.
+
+Lemma flat_check : forall ok rc s c, flat_ok ok s c ->
+  check_chain_with rc s c = ((0 <=? chain_handle c) && known s (chain_handle c)) || ok (chain_handle c).
+Proof.
+  intros ok rc s c H. destruct c as [h|h live unk a b|h live sg o]; simpl in *; [| |contradiction].
+  - rewrite <- H. unfold node_ok. simpl. destruct ((0 <=? h) && known s h); reflexivity.
+  - rewrite <- H. destruct ((0 <=? h) && known s h); reflexivity.
+Qed.
+
+Lemma flat_get : forall ok rg s c, flat_ok ok s c ->
+  (check_chain_with true s c = false -> get_chain_with rg s c = None) /\
+  (forall s', get_chain_with rg s c = Some s' ->
+     extends s s' /\ forall x, known s' x = true -> known s x = true \/ (x = chain_handle c /\ ok x = true)).
+Proof.
+  intros ok rg s c H. destruct c as [h|h live unk a b|h live sg o]; simpl in *; [| |contradiction].
+  - destruct ((0 <=? h) && known s h).
+    + split; [discriminate|]. intros s' E. inversion E; subst. split; [apply extends_refl | auto].
+    + split; [reflexivity | discriminate].
+  - destruct ((0 <=? h) && known s h).
+    + split; [discriminate|]. intros s' E. inversion E; subst. split; [apply extends_refl | auto].
+    + split; [intro N; rewrite N; reflexivity|].
+      destruct (node_ok s (ChEnd h live unk a b)) eqn:N; [|discriminate].
+      intros s' E. inversion E; subst. split; [apply extends_register|].
+      intros x Kx. unfold known, register in Kx. simpl in Kx. rewrite existsb_app in Kx.
+      apply orb_true_iff in Kx. destruct Kx as [Kx|Kx]; [left; exact Kx|].
+      simpl in Kx. rewrite orb_false_r in Kx. apply Z.eqb_eq in Kx. subst x. right. split; [reflexivity | symmetry; exact H].
+Qed.
+
+Lemma flat_refused_either_way : forall ok rg cells s,
+  Forall (flat_ok ok s) cells -> forallb (check_chain_with true s) cells = false ->
+  snd (register_cells_with rg s cells) = false.
+Proof.
+  intros ok rg. induction cells as [|c r IH]; intros s F C; simpl in *; [discriminate|].
+  inversion F as [|? ? Fc Fr]; subst.
+  destruct (flat_get ok rg s c Fc) as [G1 G2].
+  destruct (get_chain_with rg s c) as [s'|] eqn:G; [|reflexivity].
+  destruct (G2 s' eq_refl) as [E K].
+  apply andb_false_iff in C. destruct C as [C|C]; [discriminate (G1 C)|].
+  apply IH.
+  - eapply Forall_impl; [|exact Fr]. intros x Hx. eapply flat_ok_ext; eassumption.
+  - destruct (forallb (check_chain_with true s') r) eqn:R; [|reflexivity]. exfalso.
+    assert (A : forallb (check_chain_with true s) r = true); [|congruence].
+    apply forallb_forall. intros x Hx. rewrite forallb_forall in R. pose proof (R x Hx) as Rx.
+    rewrite Forall_forall in Fr. pose proof (Fr x Hx) as Fx.
+    rewrite (flat_check ok true s' x (flat_ok_ext ok s s' x E Fx)) in Rx. rewrite (flat_check ok true s x Fx).
+    apply orb_true_iff in Rx. apply orb_true_iff. destruct Rx as [Rx|Rx]; [|right; exact Rx].
+    apply andb_true_iff in Rx. destruct Rx as [P Kx]. destruct (K _ Kx) as [K0|[_ Ko]].
+    + left. rewrite P, K0. reflexivity.
+    + right. exact Ko.
+Qed.
+
+Lemma add_standard_same_verdict_l : forall ok rg s cells,
+  Forall (flat_ok ok s) cells ->
+  is_pass (snd (add_standard_validate_first_with true rg s cells)) = is_pass (snd (add_standard_register_first_with rg s cells)) /\
+  (is_pass (snd (add_standard_validate_first_with true rg s cells)) = true ->
+   add_standard_validate_first_with true rg s cells = add_standard_register_first_with rg s cells).
+Proof.
+  intros ok rg s cells F. unfold add_standard_validate_first_with, add_standard_register_first_with.
+  destruct (forallb (check_chain_with true s) cells) eqn:C.
+  - destruct (register_cells_with rg s cells) as [s1 b]; split; reflexivity || (intros; reflexivity).
+  - pose proof (flat_refused_either_way ok rg cells s F C) as R.
+    destruct (register_cells_with rg s cells) as [s1 b]. simpl in R. subst b. split; [reflexivity | discriminate].
+Qed.
+
+(* cells made from a table without correlated parameters (flat_cell) are of that kind when no frequency vector
+   has been given (every range fits) *)
+Lemma flat_cells_ok : forall valid unknown s hs,
+  n_calrange s = None -> Forall (flat_ok valid s) (map (flat_cell valid unknown) hs).
+Proof.
+  intros valid unknown s hs N. apply Forall_forall. intros c Hc. apply in_map_iff in Hc. destruct Hc as [h [E _]]. subst c.
+  unfold flat_cell. destruct (valid h) eqn:V; simpl; unfold node_ok, range_fits; rewrite N; simpl; rewrite V; reflexivity.
+Qed.
+
+(* as found in the C text: the validation loop precedes the registration loop, the validation walks down
+   to the correlate of a correlated parameter, and so does the registration *)
+Lemma add_prevalidation_as_found_l :
+  gen_add_common_prevalidates = true /\ gen_check_parameter_recurses = true /\ gen_get_parameter_recurses = true.
+Proof. repeat split; reflexivity. Qed.
+
+(* ---- concrete tables used by the examples and the model variants: calibration range 1..3 (GHz),
+   handle 4 a vector parameter over 1..3, 5 a fresh unknown parameter, 7 -> 6 -> 4 correlated parameters
+   where 6 has its own sigma frequencies 2..3 (too narrow) and 7 has none; 9 -> 8 -> 4 with 8 deleted *)
+Definition ex_s0 : newsum := mknew [0] 0 0 0 (Some (1%Q, 3%Q)).
+Definition ex_v4 : pchain := ChEnd 4 true false 1%Q (Some 3%Q).
+Definition ex_u5 : pchain := ChEnd 5 true true 0%Q None.
+Definition ex_c7_narrow : pchain := ChCorr 7 true None (ChCorr 6 true (Some (2%Q, 3%Q)) ex_v4).
+Definition ex_c9_deleted : pchain := ChCorr 9 true None (ChCorr 8 false None ex_v4).
+Definition ex_c11_good : pchain := ChCorr 11 true None (ChCorr 10 true (Some (1%Q, 3%Q)) ex_v4).
 
 (* model variant (no validation pass: the order before the repair of D17; the tied model takes it
-   when gen_add_common_prevalidates = false).  Handles 0..5 valid, 5 an unknown parameter, 99 invalid:
-   the standard (5, 99) is refused but leaves 5 registered and counted *)
+   when gen_add_common_prevalidates = false): the standard (5, 99) is refused but leaves 5 registered *)
 Lemma model_variant_register_first_keeps_registrations_l :
-  exists valid unknown s cells s',
-    add_standard_register_first valid unknown s cells = (s', Refuse VM1 (Via USAGE)) /\ s' <> s.
+  exists rg s cells s',
+    add_standard_register_first_with rg s cells = (s', Refuse VM1 (Via USAGE)) /\ s' <> s.
 Proof.
-  exists (fun h => (0 <=? h) && (h <=? 5)), (fun h => h =? 5), (mknew [0] 0 0), [5; 99],
-         (mknew [0; 5] 1 0).
+  exists true, ex_s0, [ex_u5; ChNone 99], (mknew [0; 5] 1 0 0 (Some (1%Q, 3%Q))).
   split; [vm_compute; reflexivity | discriminate].
 Qed.
 
+(* model variant (validation pass without the walk down to the correlate - the tied model takes it when
+   gen_check_parameter_recurses = false; seeded change C11-4): the standard (5, 7) with 7 -> 6 -> 4 and 6
+   too narrow passes the validation, the registration registers 5 and then refuses 6: the rejected
+   standard has added an unknown.  The same with a deleted correlate.  The premise
+   gen_check_parameter_recurses = true of rejected_standard_current_l is needed. *)
+Lemma model_variant_shallow_check_keeps_registrations_l :
+  (exists s', add_standard_validate_first_with false true ex_s0 [ex_u5; ex_c7_narrow] = (s', Refuse VM1 (Via USAGE)) /\ s' <> ex_s0) /\
+  (exists s', add_standard_validate_first_with false true ex_s0 [ex_u5; ex_c9_deleted] = (s', Refuse VM1 (Via USAGE)) /\ s' <> ex_s0) /\
+  add_standard_validate_first_with true true ex_s0 [ex_u5; ex_c7_narrow] = (ex_s0, Refuse VM1 (Via USAGE)) /\
+  add_standard_validate_first_with true true ex_s0 [ex_u5; ex_c9_deleted] = (ex_s0, Refuse VM1 (Via USAGE)).
+Proof.
+  repeat split.
+  - exists (mknew [0; 5] 1 0 0 (Some (1%Q, 3%Q))). split; [vm_compute; reflexivity | discriminate].
+  - exists (mknew [0; 5] 1 0 0 (Some (1%Q, 3%Q))). split; [vm_compute; reflexivity | discriminate].
+Qed.
+
 Example rejected_standard_example :
-  add_standard_validate_first (fun h => (0 <=? h) && (h <=? 5)) (fun h => h =? 5) (mknew [0] 0 0) [5; 99]
-    = (mknew [0] 0 0, Refuse VM1 (Via USAGE)) /\
-  add_standard_validate_first (fun h => (0 <=? h) && (h <=? 5)) (fun h => h =? 5) (mknew [0] 0 0) [5; 3]
-    = (mknew [0; 5; 3] 1 1, Pass).
-Proof. split; vm_compute; reflexivity. Qed.
+  add_standard_validate_first_with true true ex_s0 [ex_u5; ChNone 99] = (ex_s0, Refuse VM1 (Via USAGE)) /\
+  add_standard_validate_first_with true true ex_s0 [ex_u5; ChEnd 3 true false 0%Q None]
+    = (mknew [0; 5; 3] 1 0 1 (Some (1%Q, 3%Q)), Pass) /\
+  (* a chain of two correlated parameters over the vector parameter: registered deepest first *)
+  add_standard_validate_first_with true true ex_s0 [ex_u5; ex_c11_good]
+    = (mknew [0; 5; 4; 10; 11] 3 2 1 (Some (1%Q, 3%Q)), Pass) /\
+  (* the too narrow correlate is fine as long as no frequency vector has been given *)
+  add_standard_validate_first_with true true (mknew [0] 0 0 0 None) [ex_u5; ex_c7_narrow]
+    = (mknew [0; 5; 4; 6; 7] 3 2 1 None, Pass) /\
+  (* ... or when it is already registered (hash look-up first) *)
+  snd (add_standard_validate_first_with true true (mknew [0; 6] 1 1 0 (Some (1%Q, 3%Q))) [ex_u5; ex_c7_narrow]) = Pass.
+Proof. repeat split; vm_compute; reflexivity. Qed.
 
 (* ---------------------------------------------------------------- D54 *)
 Lemma vset_checks_einval : forall d c, In c (vset_checks d) -> forall x y, c x = Some y -> y = einval_m1.
